@@ -82,7 +82,7 @@ COMMON_ASSUME = [
 TASK_ASSUME = COMMON_ASSUME + [
     "process-wrap child contract: kill/wait/signal act on the one child; a successful wait reaps it; spawn yields a child not currently live",
     "tokio select! runs exactly one ready branch and cancelling the others has no effect; a guarded branch runs only if its guard held",
-    "tokio mpsc unbounded channels are FIFO and deliver every message exactly once",
+    "tokio mpsc unbounded channels are FIFO and deliver every message exactly once; once every sender (every Job handle) is dropped the three queues are closed: nothing is appended any more, recv() on a closed and empty queue completes with None (modelled since D18)",
     "user callbacks (spawn hook, error handler, run/run_async functions) cannot touch task-local state",
     "one job task per job (C04.structure.one_task_per_job); the task body of start_job is verified as `job_task` with its two handler blocks outlined (R14) and select! desugared (R6b): cancelling the losing select branch (CommandState::wait / PriorityReceiver::recv) is assumed effect-free",
     "other tasks put controls into the queues only through Job methods (urgent: Stop/Delete, high: NextEnding), as proved for every Job method (C10.job_*) and enumerated call sites (C10.structure.*)",
